@@ -147,6 +147,79 @@ def cls_nonlocal_input_only(cf_node, annos_of):
     return False
 
 
+def closure_reads_live(cf_node, annos_of):
+    """LiveConsistent-style check on the REAL annotations for what the Lean fragment does not contain: a statement that
+    calls a local function `g` reads the enclosing function's variables that `g` reads, so they must be in the statement's
+    LIVE_VARS_IN (also when the same statement rebinds them).  Returns [(kind, variable, statement)]:
+    kind 'closure-call:nonlocal' = the variable is declared nonlocal in g (known finding class
+    nonlocal_write_in_reaching_closure), 'closure-call:reads' = anything else (no known class)."""
+    out = []
+    if cf_node is None:
+        return out
+
+    def own(fn):
+        stack = list(fn.body)
+        while stack:
+            s = stack.pop()
+            yield s
+            if isinstance(s, (ast.FunctionDef, ast.ClassDef)):
+                continue
+            for sub in ('body', 'orelse', 'finalbody'):
+                b = getattr(s, sub, None)
+                if isinstance(b, list):
+                    stack.extend(x for x in b if isinstance(x, ast.stmt))
+            if isinstance(s, ast.Try):
+                for h in s.handlers:
+                    stack.extend(h.body)
+
+    def exprs_of(s):
+        if isinstance(s, (ast.Assign, ast.AugAssign, ast.Return, ast.Expr)):
+            return [s.value] if s.value is not None else []
+        if isinstance(s, (ast.If, ast.While)):
+            return [s.test]
+        if isinstance(s, ast.For):
+            return [s.iter]
+        return []
+    for fn in ast.walk(cf_node):
+        if not isinstance(fn, ast.FunctionDef):
+            continue
+        local_fns = dict((s.name, s) for s in own(fn) if isinstance(s, ast.FunctionDef))
+        if not local_fns:
+            continue
+        owned = set(a.arg for a in fn.args.args)
+        for s in own(fn):
+            if isinstance(s, (ast.FunctionDef, ast.ClassDef)):
+                continue
+            for e in exprs_of(s) + ([t for t in getattr(s, 'targets', [])] if isinstance(s, ast.Assign) else []) \
+                    + ([s.target] if isinstance(s, (ast.AugAssign, ast.For)) else []):
+                for n in ast.walk(e):
+                    if isinstance(n, ast.Name) and isinstance(n.ctx, ast.Store):
+                        owned.add(n.id)
+        free = {}
+        for name, g in local_fns.items():
+            params = set(a.arg for a in g.args.args)
+            nl, stores, loads = set(), set(), set()
+            for n in ast.walk(g):
+                if isinstance(n, ast.Nonlocal):
+                    nl |= set(n.names)
+                elif isinstance(n, ast.Name):
+                    (stores if isinstance(n.ctx, ast.Store) else loads).add(n.id)
+            free[name] = (((loads - params - (stores - nl)) | nl) & owned, nl)
+        for s in own(fn):
+            an = annos_of(s)
+            if 'LIVE_VARS_IN' not in an:
+                continue
+            for e in exprs_of(s):
+                for n in ast.walk(e):
+                    if isinstance(n, ast.Call) and B._is_ag(n.func, 'converted_call') and n.args and isinstance(n.args[0], ast.Name) \
+                            and n.args[0].id in free:
+                        fv, nl = free[n.args[0].id]
+                        for v in sorted(fv):
+                            if v not in an['LIVE_VARS_IN']:
+                                out.append(('closure-call:nonlocal' if v in nl else 'closure-call:reads', v, ast.unparse(ast.fix_missing_locations(s))[:120]))
+    return out
+
+
 _GEN_BODY_PREFIXES = ('if_body', 'else_body', 'loop_body')
 
 
@@ -350,6 +423,7 @@ def record(c):
     r = {'stream': c.stream, 'key': c.prog.key, 'fsrc': c.fsrc, 'inputs': [list(a) for a in c.prog.inputs],
          'features': sorted(c.prog.features), 'conv_error': c.conv_error, 'results': c.results, 'counters': c.counters,
          'classes': classify(c.source_fn, c.module_names, c.cf_node, c.annos_of, c.final_fn), 'same_code': c.same_code,
+         'closure_live': closure_reads_live(c.cf_node, c.annos_of),
          'frag': None, 'unsupported': None, 'shape': None}
     if c.conv_error is None:
         try:
@@ -505,6 +579,19 @@ def check(run, only=None):
     run.oblige('correspondence:target-shape', 'correspondence', not shape_problems,
                json.dumps(shape_problems[:2]) if shape_problems else '')
 
+    # ---------------- checkers on the real annotations, outside the Lean fragment: closure reads ----------------
+    ck = {}
+    unattributed = []
+    for r in recs:
+        for kind, v, st in r.get('closure_live') or []:
+            ck[kind] = ck.get(kind, 0) + 1
+            if kind != 'closure-call:nonlocal':
+                unattributed.append({'source': r['fsrc'], 'kind': kind, 'variable': v, 'statement': st})
+    cov['closure_read_liveness_violations'] = ck
+    run.oblige('checker:closure-reads-live-on-real-annotations', 'checker', not unattributed,
+               ('a variable read by a called local function is not in LIVE_VARS_IN of the calling statement, in no known '
+                'finding class: ' + json.dumps(unattributed[:2])) if unattributed else '')
+
     # ---------------- correspondence on the shared fragment ----------------
     frag = [r for r in recs if r['frag'] is not None]
     stats['in_fragment'] = len(frag)
@@ -545,8 +632,12 @@ def check(run, only=None):
                 dis['zerotrip-predicate'].append({'source': r['fsrc'], 'model': flags['zerotrip'], 'harness': g['py_zero']})
             if (a_risk == 'True') != g['py_risk']:
                 dis['risk-predicate'].append({'source': r['fsrc'], 'model': a_risk, 'harness': g['py_risk']})
-            if not flags['live'] and not flags['zerotrip']:
-                unexplained_live.append({'source': r['fsrc'], 'diag': chk.get('diag', [])})
+            # every violation of a hypothesis on the real annotations must be in a known finding class:
+            # LiveConsistent: kind for:exit-target = for_target_live_across_zero_trip; DeclB/DefB/HypFB: no known class
+            bad_kinds = sorted(set(':'.join(d.split(':')[1:]) for d in chk.get('diag', [])) - {'for:exit-target'})
+            bad_kinds += [n for n in ('decl', 'def', 'jump', 'hypf') if not flags[n]]
+            if (not flags['live'] and not flags['zerotrip']) or bad_kinds:
+                unexplained_live.append({'source': r['fsrc'], 'unattributed': bad_kinds, 'diag': chk.get('diag', [])})
             res = parse_sexp(a_run)
             for (a, r0, r1, r2), row in zip(r['results'], res):
                 run.evaluations += 1
@@ -563,6 +654,9 @@ def check(run, only=None):
         for name in ('func', 'blockvars', 'sem-source', 'sem-native', 'sem-functional', 'risk-predicate', 'zerotrip-predicate'):
             d = dis[name]
             run.oblige('correspondence:' + name, 'correspondence', not d, json.dumps(d[:2]) if d else '')
+        run.oblige('checker:hypotheses-on-real-annotations-attributed', 'checker', not unexplained_live,
+                   ('LiveConsistent / DeclB / DefB / HypFB fails on the real annotations in no known finding class: '
+                    + json.dumps(unexplained_live[:2])) if unexplained_live else '')
         run.oblige('checker:theorem-instances-on-real-annotations', 'checker', not dis['theorem-instance'],
                    json.dumps(dis['theorem-instance'][:2]) if dis['theorem-instance'] else '')
         cov['hypotheses_on_real_annotations'] = dict(hyp, programs=len(frag))
